@@ -5,7 +5,10 @@ import json, os, re, shutil, subprocess, sys, time, random, hashlib
 
 VERIF = os.path.dirname(os.path.dirname(os.path.abspath(__file__)))
 SPEC = os.path.join(VERIF, 'spec')
-WORK = os.path.join(VERIF, '.work')
+# (developer knobs, not used by any registered command: VERIF_WORK = another scratch root, VERIF_REPO = another checkout of
+#  hslam/rpc - lets the seeded-change matrix run against a scratch worktree while /repo itself is being checked)
+WORK = os.environ.get('VERIF_WORK') or os.path.join(VERIF, '.work')
+REPO = os.environ.get('VERIF_REPO') or '/repo'
 HARNESS = os.path.join(VERIF, 'harness')
 EVID = os.path.join(VERIF, 'evidence')
 GOENV = dict(os.environ, GOFLAGS='-mod=mod', GOPROXY='off', GOSUMDB='off', GOTOOLCHAIN='local',
@@ -42,8 +45,15 @@ def build_harness():
     if _built.get('vh'):
         return out
     os.makedirs(WORK, exist_ok=True)
-    shutil.copy('/repo/go.sum', os.path.join(HARNESS, 'go.sum'))
-    rc, o = sh(['go', 'build', '-tags', 'verif', '-o', out, '.'], cwd=HARNESS, env=GOENV, timeout=600)
+    hdir = HARNESS
+    if REPO != '/repo':
+        hdir = os.path.join(WORK, 'harness_src')
+        shutil.rmtree(hdir, ignore_errors=True)
+        shutil.copytree(HARNESS, hdir)
+        gm = open(os.path.join(hdir, 'go.mod')).read().replace('=> /repo', '=> ' + REPO)
+        open(os.path.join(hdir, 'go.mod'), 'w').write(gm)
+    shutil.copy(os.path.join(REPO, 'go.sum'), os.path.join(hdir, 'go.sum'))
+    rc, o = sh(['go', 'build', '-tags', 'verif', '-o', out, '.'], cwd=hdir, env=GOENV, timeout=600)
     if rc != 0:
         raise Machinery('harness does not build against /repo:\n' + o[-3000:])
     _built['vh'] = True
@@ -92,8 +102,11 @@ def run_tlc(workdir, module, cfg, specs, workers=16, timeout=900, args=(), deque
     with open(os.path.join(workdir, 'run.cfg'), 'w') as f:
         f.write(cfg)
     env = dict(os.environ)
+    jt = os.path.join(workdir, 'jtmp')          # TLC leaves one empty tlc-* directory per run in java.io.tmpdir: keep them out of /tmp
+    os.makedirs(jt, exist_ok=True)
+    env['JAVA_TOOL_OPTIONS'] = '-Djava.io.tmpdir=' + jt
     if deque:
-        env['JAVA_TOOL_OPTIONS'] = '-Dtlc2.tool.queue.IStateQueue=StateDeque'
+        env['JAVA_TOOL_OPTIONS'] += ' -Dtlc2.tool.queue.IStateQueue=StateDeque'
     cmd = ['timeout', str(timeout), 'tlc', '-workers', str(workers), '-metadir', os.path.join(workdir, 'md'),
            '-config', 'run.cfg'] + list(args) + [module]
     t0 = time.time()
@@ -112,6 +125,7 @@ def run_tlc(workdir, module, cfg, specs, workers=16, timeout=900, args=(), deque
     res['timeout'] = (rc == 124)
     shutil.rmtree(os.path.join(workdir, 'md'), ignore_errors=True)
     shutil.rmtree(os.path.join(workdir, 'states'), ignore_errors=True)
+    shutil.rmtree(jt, ignore_errors=True)
     return res
 
 LABEL_RE = re.compile(r'^(?:State (\d+): |\\\* )<(\w+)(?:\(([^)]*)\))? line')
